@@ -43,6 +43,13 @@ func (b Bundle) Fragment(mtu int) (bs []Bundle, err error) {
 	}
 	payloadBlockLen = len(payloadBlock.Value.(*PayloadBlock).Data())
 
+	// Fragments of a fragment refer to the original Bundle's payload, not to this fragment's part of it.
+	fragBaseOffset, fragTotalLen := 0, payloadBlockLen
+	if b.PrimaryBlock.HasFragmentation() {
+		fragBaseOffset = int(b.PrimaryBlock.FragmentOffset)
+		fragTotalLen = int(b.PrimaryBlock.TotalDataLength)
+	}
+
 	if extFirstOverhead, extOtherOverhead, err = fragmentExtensionBlocksLen(b, mtu); err != nil {
 		return
 	}
@@ -53,7 +60,7 @@ func (b Bundle) Fragment(mtu int) (bs []Bundle, err error) {
 			primaryOverhead  int
 		)
 
-		if fragPrimaryBlock, primaryOverhead, err = fragmentPrimaryBlock(b.PrimaryBlock, i, payloadBlockLen); err != nil {
+		if fragPrimaryBlock, primaryOverhead, err = fragmentPrimaryBlock(b.PrimaryBlock, fragBaseOffset+i, fragTotalLen); err != nil {
 			return
 		}
 
